@@ -270,8 +270,7 @@ func applyRule(r *Rule, node ast.Node) (int, error) {
 		}}
 		rw.node(node)
 	case "rewrite_stmt":
-		repl, err := parseStmts(r.To)
-		if err != nil {
+		if _, err := parseStmts(r.To); err != nil {
 			return 0, fmt.Errorf("rewrite_stmt: cannot parse `to`: %v", err)
 		}
 		rw := &rewriter{stmts: func(list []ast.Stmt) []ast.Stmt {
@@ -287,7 +286,6 @@ func applyRule(r *Rule, node ast.Node) (int, error) {
 			}
 			return out
 		}}
-		_ = repl
 		rw.node(node)
 	case "take_else":
 		rw := &rewriter{stmts: func(list []ast.Stmt) []ast.Stmt {
